@@ -1,9 +1,23 @@
-package metrics
+package zzh
 
 import (
+	"github.com/sahandsafizadeh/qeep/component/metrics"
 	"github.com/sahandsafizadeh/qeep/tensor"
 	vrt "github.com/sahandsafizadeh/qeep/zzvrt"
 )
+
+// The running counts are observed and preset through vrt.IntField / vrt.SetIntField (found by name,
+// embedded structs included), through the public constructor: the harness does not compile against the
+// layout of Accuracy.
+func accWith(T, C int) *metrics.Accuracy {
+	acc := metrics.NewAccuracy()
+	vrt.SetIntField(acc, "total", T)
+	vrt.SetIntField(acc, "correct", C)
+	return acc
+}
+
+func accTotal(a *metrics.Accuracy) int   { return vrt.IntField(a, "total") }
+func accCorrect(a *metrics.Accuracy) int { return vrt.IntField(a, "correct") }
 
 /* C19 — Accuracy equals matched over total across everything accumulated.
    One inductive step from an ARBITRARY pre-state {total:T, correct:C} (0<=C<=T<2^40): additivity of one
@@ -23,14 +37,14 @@ func zzLabels(name string, n int) (tensor.Tensor, []float64) {
 	return t, e
 }
 
-func zzPre() (*Accuracy, int, int) {
+func zzPre() (*metrics.Accuracy, int, int) {
 	T := vrt.Int("T", 0, 1<<40)
 	C := vrt.Int("C", 0, 1<<40)
 	vrt.Assume(C <= T)
-	return &Accuracy{total: T, correct: C}, T, C
+	return accWith(T, C), T, C
 }
 
-func zzCheckResult(label string, acc *Accuracy, T, C int) {
+func zzCheckResult(label string, acc *metrics.Accuracy, T, C int) {
 	res, err := acc.Result()
 	vrt.Assert(label+": Result returns no error", err == nil)
 	if T == 0 {
@@ -60,8 +74,8 @@ func H_C19_step() {
 	if err != nil {
 		return
 	}
-	vrt.Assert("total grows by the batch size", acc.total == T+n)
-	vrt.Assert("correct grows by the number of equal positions", acc.correct == C+matched)
+	vrt.Assert("total grows by the batch size", accTotal(acc) == T+n)
+	vrt.Assert("correct grows by the number of equal positions", accCorrect(acc) == C+matched)
 	zzCheckResult("after step", acc, T+n, C+matched)
 	vrt.Reach("done")
 }
@@ -69,7 +83,7 @@ func H_C19_step() {
 // H_C19_split: the same data in one call or split into two calls leaves the same counters.
 func H_C19_split() {
 	acc1, T, C := zzPre()
-	acc2 := &Accuracy{total: T, correct: C}
+	acc2 := accWith(T, C)
 	n := vrt.Concretize(vrt.Int("n", 2, vrt.Param("maxn")))
 	s := vrt.Concretize(vrt.Int("s", 1, n-1))
 	pe := make([]float64, n)
@@ -96,8 +110,8 @@ func H_C19_split() {
 	if e0 != nil || e1 != nil || e2 != nil {
 		return
 	}
-	vrt.Assert("total does not depend on the split", acc1.total == acc2.total)
-	vrt.Assert("correct does not depend on the split", acc1.correct == acc2.correct)
+	vrt.Assert("total does not depend on the split", accTotal(acc1) == accTotal(acc2))
+	vrt.Assert("correct does not depend on the split", accCorrect(acc1) == accCorrect(acc2))
 	vrt.Reach("done")
 }
 
@@ -128,8 +142,8 @@ func H_C19_invalid() {
 	panicked := vrt.Try(func() { err = acc.Accumulate(yp, yt) })
 	vrt.Assert("invalid call does not panic", !panicked)
 	vrt.Assert("invalid call is rejected", err != nil)
-	vrt.Assert("rejected call leaves total unchanged", acc.total == T)
-	vrt.Assert("rejected call leaves correct unchanged", acc.correct == C)
+	vrt.Assert("rejected call leaves total unchanged", accTotal(acc) == T)
+	vrt.Assert("rejected call leaves correct unchanged", accCorrect(acc) == C)
 	zzCheckResult("after rejected call", acc, T, C)
 	vrt.Reach("done")
 }
@@ -143,7 +157,7 @@ func H_C19_fp() {
 	T := vrt.Int("T", 0, 1<<20)
 	C := vrt.Int("C", 0, 1<<20)
 	vrt.Assume(C <= T)
-	acc := &Accuracy{total: T, correct: C}
+	acc := accWith(T, C)
 	pd := make([]float64, n)
 	td := make([]float64, n)
 	matched := 0
@@ -171,12 +185,12 @@ func H_C19_fp() {
 	if err != nil {
 		return
 	}
-	vrt.Assert("bit-precise: total grows by the batch size", acc.total == T+n)
-	vrt.Assert("bit-precise: correct grows by the number of equal positions", acc.correct == C+matched)
+	vrt.Assert("bit-precise: total grows by the batch size", accTotal(acc) == T+n)
+	vrt.Assert("bit-precise: correct grows by the number of equal positions", accCorrect(acc) == C+matched)
 	res, rerr := acc.Result()
 	vrt.Assert("bit-precise: Result returns no error", rerr == nil)
 	// with the two counter equalities above this is matched / total, correctly rounded
-	vrt.Assert("bit-precise: Result is the correctly rounded quotient of the counters", res == float64(acc.correct)/float64(acc.total))
+	vrt.Assert("bit-precise: Result is the correctly rounded quotient of the counters", res == float64(accCorrect(acc))/float64(accTotal(acc)))
 	vrt.Reach("done")
 }
 
@@ -210,8 +224,10 @@ func H_C19_big() {
 	if err != nil {
 		return
 	}
-	vrt.Assert("large batch: total grows by the batch size", acc.total == T+n)
-	vrt.Assert("large batch: correct grows by the number of equal positions", acc.correct == C+matched)
-	zzCheckResult("after a large batch", acc, T+n, C+matched)
+	vrt.Assert("large batch: total grows by the batch size", accTotal(acc) == T+n)
+	vrt.Assert("large batch: correct grows by the number of equal positions", accCorrect(acc) == C+matched)
+	res, rerr := acc.Result()
+	vrt.Assert("large batch: Result returns no error", rerr == nil)
+	vrt.AssertEqF("large batch: Result = correct / total", res, float64(C+matched)/float64(T+n))
 	vrt.Reach("done")
 }
